@@ -166,6 +166,59 @@ func modelDump(p *Pool) string {
 		}
 	}
 	// layer 3: signals with their shared definitions, reference sets, assignments, custom builders
+	var gItems, xItems, tItems []string
+	sigOpt := func(sg acme.Signal) string {
+		if sg == nil {
+			return "-"
+		}
+		return p.hid(sg.EntityID())
+	}
+	for _, e := range p.ents {
+		switch e.K {
+		case KSig:
+			pm, px := "-", "-"
+			if m := e.Sig.ParentMessage(); m != nil {
+				pm = p.hid(m.EntityID())
+			}
+			if mx := e.Sig.ParentMultiplexerSignal(); mx != nil {
+				px = p.hid(mx.EntityID())
+			}
+			gItems = append(gItems, fmt.Sprintf("G%d:n=%s;pm=%s;px=%s", e.H, nameNum(e.Sig.Name()), pm, px))
+			if e.Sig.Kind() == acme.SignalKindMultiplexer {
+				mx, _ := e.Sig.ToMultiplexer()
+				var ss, fx []string
+				for id := range mx.VerifSignals() {
+					ss = append(ss, p.hid(id))
+				}
+				for id := range mx.VerifFixedSignals() {
+					fx = append(fx, p.hid(id))
+				}
+				var gi []kv
+				for id, ids := range mx.VerifSignalGroupIDs() {
+					var xs []string
+					for _, g := range ids {
+						xs = append(xs, strconv.Itoa(g))
+					}
+					kh, _ := strconv.ParseInt(p.hid(id), 10, 64)
+					gi = append(gi, kv{kh, p.hid(id) + ":" + strings.Join(xs, "+")})
+				}
+				xItems = append(xItems, fmt.Sprintf("X%d:c=%d;g=%d;s=%s;sn=%s;f=%s;gi=%s", e.H, mx.GroupCount(), mx.GroupSize(),
+					joinSorted(ss, true), mapNameID(p, mx.VerifSignalNames()), joinSorted(fx, true), joinKV(gi)))
+			}
+		case KMsg:
+			var top, reg []string
+			for _, sg := range e.Msg.Signals() {
+				top = append(top, sigOpt(sg))
+			}
+			for id := range e.Msg.VerifSignals() {
+				reg = append(reg, p.hid(id))
+			}
+			t, r, rn := joinSorted(top, true), joinSorted(reg, true), mapNameID(p, e.Msg.VerifSignalNames())
+			if t != "" || r != "" || rn != "" {
+				tItems = append(tItems, fmt.Sprintf("T%d:t=%s;r=%s;rn=%s", e.H, t, r, rn))
+			}
+		}
+	}
 	refs := map[string][]string{}
 	addRef := func(tag string, h int, xs []string) {
 		if len(xs) > 0 {
@@ -221,6 +274,11 @@ func modelDump(p *Pool) string {
 	// entity items in handle order (the first character is the kind letter, then the handle)
 	sort.SliceStable(items, func(i, j int) bool { return itemHandle(items[i]) < itemHandle(items[j]) })
 	out := strings.Join(items, "|")
+	for _, grp := range [][]string{gItems, xItems, tItems} {
+		for _, x := range grp {
+			out += "|" + x
+		}
+	}
 	for _, tag := range []string{"Rt", "Ru", "Re", "Ra", "As", "Rc", "Bb"} {
 		for _, x := range refs[tag] {
 			out += "|" + x
